@@ -170,3 +170,24 @@ def family_file(name, timeout=3000):
     json.dump(m, open(meta, "w"))
     shutil.rmtree(wd, ignore_errors=True)
     return p, m
+
+
+def harvest_file():
+    """Buffers the repository's own test suite hands to the parser (hook H1 harvest sink):
+    the pinned suite is built and run once with the guard on; corpus only, no verdicts."""
+    p = os.path.join(CACHE, "harvest.txt")
+    if os.path.exists(p) and os.path.getsize(p) > 1000:
+        return p
+    tmp = p + ".tmp"
+    if os.path.exists(tmp):
+        os.remove(tmp)
+    tdir = os.path.join(HARNESS, "target", "harvest")
+    e = {"HTTPARSE_VERIF_HARVEST": tmp, "RUSTFLAGS": "--cfg httparse_verif", "CARGO_NET_OFFLINE": "true"}
+    r = sh(["cargo", "test", "--offline", "--release", "--target-dir", tdir], cwd=REPO, env=e, timeout=1500, check=False)
+    if not os.path.exists(tmp):
+        open(tmp, "w").write("")
+    lines = sorted(set(open(tmp).read().split()))
+    open(p, "w").write("\n".join(lines) + "\n")
+    os.remove(tmp)
+    shutil.rmtree(tdir, ignore_errors=True)
+    return p
